@@ -30,11 +30,11 @@ Qed.
 Print Assumptions C12_injection_is_documented.
 
 (* the forcing arrays of the source: the constructors of VorticityConvection2dKolmogorov / ProjectedConvection3dKolmogorov are executed
-   symbolically on every run (harness/translate/spectral.py -> gen_injection2d / gen_injection3d in Gen/SpectralGen.v, with the derivative
+   symbolically on every run (harness/translate/spectral.py -> gen_injection2d / gen_injection3d in Gen/InjectionGen.v, with the derivative
    operator build_derivative_operator(D, L, N) that BaseStepper hands to _build_nonlinear_fun, callees inlined) and ARE the model's arrays at the
    signed wavenumber vector of every stored index - every N, forcing mode, scale and extent; (re, im) against any imaginary unit ii.
    With C12_injection_is_documented the SOURCE injects exactly the documented field. *)
-From EXV Require Import Gen.SpectralGen Tie.InjectionTie.
+From EXV Require Import Gen.SpectralGen Gen.InjectionGen Tie.InjectionTie.
 Theorem C12_code_injection_is_model_injection : forall (F : FieldT) (pi ii L gamma : F) (N kinj : Z) (ch : nat) (idx : list Z),
   gen_injection2d F pi L gamma N kinj idx = injection2d F (fz 2 * pi / L) gamma N kinj (wnvec 2 N idx)
   /\ injection3d F ii gamma N kinj ch (wnvec 3 N idx)
